@@ -1786,8 +1786,14 @@ func (m *StateMachine) advance(
 
 		// We have to synchronously enter the round,
 		// but we still enter through the consensus manager for this.
+		//
+		// As on the initial round entrance, the consensus strategy is only presented
+		// the proposed headers that match our validator sets and app state hash.
+		// (The full set stays on rer.VRV, which beginRoundLive needs for committing.)
+		rv := rer.VRV.RoundView
+		rv.ProposedHeaders = m.rejectMismatchedProposedHeaders(rv.ProposedHeaders, rlc)
 		req := tsi.EnterRoundRequest{
-			RV:     rer.VRV.RoundView,
+			RV:     rv,
 			Result: make(chan error), // Unbuffered since both sides sync on this.
 
 			ProposalOut: rlc.ProposalCh,
